@@ -258,9 +258,29 @@ def call_lib(I, name, args, kwargs, node):
         return Top(f"{name}(...)", deps=lv)
     if name.startswith("math."):
         return Top(f"{name}(...)", deps=[l for x in a for l in I.leaves(x)])
-    if "." in name and name.split(".")[-1] in ("get",):
-        pass
+    if name in PURE_STDLIB and all(isinstance(x, Const) for x in a) and all(isinstance(x, Const) for x in kwargs.values()):
+        # side-effect free standard-library function on constants: folded (the standard library is trusted, the package is not run)
+        try:
+            return Const(PURE_STDLIB[name](*[x.v for x in a], **{k: v.v for k, v in kwargs.items()}))
+        except Exception as e:
+            raise _Raise(f"{type(e).__name__} in {name}")
     return Top(f"library call {name}", deps=[l for x in a for l in I.leaves(x)])
+
+
+def _pure_stdlib():
+    import os.path
+    import pathlib
+    import posixpath
+    out = {}
+    for modname, mod in (("posixpath", posixpath), ("os.path", os.path)):
+        for fn in ("basename", "dirname", "split", "splitext", "join", "normpath"):
+            out[f"{modname}.{fn}"] = getattr(posixpath, fn)
+    for cls in ("PurePosixPath", "PurePath", "Path", "PosixPath"):
+        out[f"pathlib.{cls}"] = pathlib.PurePosixPath
+    return out
+
+
+PURE_STDLIB = _pure_stdlib()
 
 
 def tag_leaves(I, v, tag):
@@ -484,6 +504,17 @@ def builtin(I, name, a, kwargs, node):
             return ListLit(sorted(v.elts, key=lambda c: c.v))
         return v
     if name in ("min", "max", "sum", "any", "all"):
+        try:
+            vals = [to_py(x) for x in (seq_elts(I, a[0], node) if len(a) == 1 else a)]
+        except (ShapeError, TypeError):
+            vals = [_NOPY]
+        if vals and all(v is not _NOPY for v in vals) and not kwargs:
+            try:
+                return Const({"min": min, "max": max, "sum": sum, "any": any, "all": all}[name](vals))
+            except Exception:
+                raise _Raise(f"{name}()")
+        if not vals and name in ("min", "max") and "default" not in kwargs:
+            raise _Raise(f"{name}() of an empty sequence")
         return Top(f"{name}(...)", deps=[l for x in a for l in I.leaves(x)])
     if name == "getattr":
         return I.getattr(a[0], a[1].v) if isinstance(a[1], Const) else Top("getattr")
